@@ -53,6 +53,8 @@ TokenAtoms == {
   A("id.esc.hexcont","Ident", <<"bslash", "digit", "digit", "sp", "hex">>),         \* \26 B
   A("id.esc.hexnl",  "Ident", <<"bslash", "digit", "digit", "nl", "letter">>),      \* escape terminated by a newline
   A("id.esc.hex6",   "Ident", <<"bslash", "digit", "digit", "digit", "digit", "hex", "digit", "hex">>),   \* \000026B
+  A("id.esc.hex6ws", "Ident", <<"bslash", "digit", "hex", "digit", "e", "digit", "digit", "sp", "letter">>),     \* six digits, then the whitespace
+  A("id.esc.hex7",   "Ident", <<"bslash", "digit", "digit", "digit", "digit", "digit", "digit", "digit">>),       \* the 7th digit is a name code point
   A("id.esc.hexopen","Ident", <<"letter", "bslash", "digit", "digit">>),            \* a\26   (escape not terminated)
   A("id.esc.char",   "Ident", <<"bslash", "letter">>),
   A("id.esc.punct",  "Ident", <<"bslash", "hash", "letter">>),
